@@ -6,6 +6,7 @@ CONSTANTS
  MaxAttempts = 3
  MaxFaults = 2
  CanonOrder = TRUE
+ ErrCodes = {}
  MaxDown = 1
  DevRetryOnTimeout = FALSE
  DevDropFailed = FALSE
